@@ -30,6 +30,7 @@ DECIDED = [
     "R-C16-CALLBACKS: set_result/set_exception overwrite one lazy slot that inserts at the position current at call "
     "time; __execute_callbacks fires the slot first and then awaits the callbacks in list order",
     "R-C16-TYPESTATE (connection): a Message handle is created on the connection of the queue it was taken from (connection propagation rule)",
+    "R-C16-CALLBACKS (writers): the lazy result slot is written only by set_result / set_exception (directly or through their private helper)",
 ]
 NOT_DECIDED = ["user code catching BaseException inside an actor (outside the analysed program)"]
 ASSUMPTIONS = ["Message actions are only reachable through the methods analysed (no monkey-patching)"]
